@@ -121,6 +121,10 @@ func (t StartActivityTransition) do(env *Environment) (err error) {
 		env.currentRunNumber = 0
 		return tasksStateErrors
 	}
+	if err = criticalTasksInError(env, "START_ACTIVITY"); err != nil {
+		env.currentRunNumber = 0
+		return err
+	}
 
 	log.WithField(infologger.Run, env.currentRunNumber).
 		WithField("partition", env.Id().String()).
